@@ -25,6 +25,18 @@ DESC = {
    "magic ok, file >= 74 bytes and hash-mode byte (offset 9) exactly 0xFF: NULL hasher, SIGSEGV in verify and decrypt"),
  "C12-decrypt-reports-bad-padding": ("C12", "decrypt reports an invalid final padding as failure (result 5) - a second way to fail that verify does not share",
    "a file whose unauthenticated cipher-mode byte was rewritten to another valid mode (or any authentic file with bad padding): verify passes, decrypt fails"),
+ "C07-string-hash-length-32bit-shift": ("C07", "length bookkeeping moved out of the compression functions; the in-memory entry point computes `length << 3` in 32 bits",
+   "getStringHash with a message of 2^29 bytes or more (any algorithm); the streamed entry point and all shorter messages are unaffected"),
+ "C08-filebuffer-early-eof-at-full-buffer": ("C08", "file hashing buffer returns 0 ('end of file') when a completely filled buffer has been consumed and tail == 0, before trying to refill",
+   "a hashed range longer than the refill size (32 MiB in production, refill*64 bytes in the hooked build): the tag covers only the first buffer-full"),
+ "C09-key-strncpy-truncates-at-nul": ("C09", "key schedule copies the key with strncpy: everything after the first 0x00 key byte is zeroed",
+   "a key with a 0x00 byte at index 0..14 followed by a non-zero byte (5.7% of random keys, never an ASCII key); encrypt/decrypt still invert each other"),
+ "C10-ctr-carry-into-wrong-byte": ("C10", "CTR increment done as two 64-bit words; the carry into the high word is added without the byte swap (iv[0] instead of iv[7])",
+   "CTR mode and the low 64 counter bits wrapping inside the stream (IV with >= 8 trailing 0xFF bytes, but not all 16)"),
+ "C16-decoder-writes-full-last-group": ("C16", "decoder treats '=' as a zero sextet and flushes the padded last group through the normal 3-byte path",
+   "any padded input: 1-2 extra zero bytes behind the decoded data (18 bytes into the 16-byte key buffer); invisible unless the byte behind the buffer matters (canary, ASan, neighbouring object)"),
+ "C17-mode-number-narrowed-before-check": ("C17", "--cmode/--hmode parsing folded into a helper that stores atoi() into the char field before the range check",
+   "an out-of-range mode number whose low byte is a valid mode (256..260, 512, -252, -256 ...): accepted, exit 0"),
  "C18-seed-length-u8-wrap": ("C18", "seed length bounded with strnlen(.,256) but stored in a u8_t: 256 wraps to 0",
    "a seed of 256 or more non-NUL bytes (about 37% of CLI runs, never for short seeds): every header IV becomes the SHA-1 chain of the empty string"),
 }
